@@ -183,4 +183,26 @@ Allowed(c, result) ==
        /\ AsSet(result.files) = AsSet(Extract(c).files)
   ELSE IF EmptyRangePastEnd(c) THEN TRUE
   ELSE "ok" \in DOMAIN result /\ ~result.ok
+
+\* ------------------------------------------------------------------ arcs too large for a full reference parse
+(* For record counts around 2^16 the image (about 2 MB) is built by the harness from a RULE: file i (0-based)
+   is named BigName(i) and holds BigBody(i), placed by the same layout builder whose small outputs are
+   validated in full through Conforms / Extract.  Of such an image only a summary is validated:
+     result = [ok, count |-> number of entries returned, sample |-> <<[i, name, found, bytes] ...>>]
+   the count must be the number of records and every sampled file (first, last, every 4099th, the
+   indices around 2^8 and 2^16) must have come back under the rule's name with the rule's bytes.
+   The middle of such an image is only sampled. *)
+RECURSIVE Dec(_)
+Dec(n) == IF n < 10 THEN <<48 + n>> ELSE Dec(n \div 10) \o <<48 + (n % 10)>>
+BigName(i) == (IF i % 1000 = 7 THEN <<130, 160>> ELSE <<102>>) \o Dec(i)        \* hiragana a / "f", then the index
+BigBody(i) == IF i % 251 = 0 THEN <<i % 256, (i \div 256) % 256>> ELSE <<>>
+RequiredSample(n) ==
+  { i \in {0, n - 1, 254, 255, 256, 257, 65534, 65535, 65536} : i >= 0 /\ i < n }
+  \cup { 4099 * k : k \in 0..((n - 1) \div 4099) }
+BigAllowed(n, result) ==
+  /\ "ok" \in DOMAIN result /\ result.ok
+  /\ result.count = n
+  /\ n > 0 => \A i \in RequiredSample(n) : \E k \in 1..Len(result.sample) : result.sample[k].i = i
+  /\ \A k \in 1..Len(result.sample) :
+        LET x == result.sample[k] IN x.found /\ x.name = BigName(x.i) /\ x.bytes = BigBody(x.i)
 =============================================================================
